@@ -68,7 +68,8 @@ Lemma src_best_pred L specs s o :
 Proof.
   unfold gen_best_pred. cbn [beval pickw]. unfold src_more_specific, src_is_base_ix.
   rewrite ?src_is_more_specific, ?src_is_base.
-  destruct (Nat.eqb_spec o s); subst; rewrite ?Nat.eqb_refl; cbn [orb negb andb];
+  destruct (is_more_specific L (nth s specs []) (nth o specs []) false);
+    destruct (Nat.eqb_spec o s); subst; rewrite ?Nat.eqb_refl; cbn [orb negb andb];
     try reflexivity;
     try (destruct (Nat.eqb_spec s o); subst; [contradiction|cbn [orb negb andb]; reflexivity]).
 Qed.
